@@ -62,6 +62,22 @@ Inductive appender_kind := AppIfAbsent | AppAlways | AppUnknown.
    the binding saved before / delete only / put back only / leave the last element bound *)
 Inductive sv_after := SvDeleteThenRestore | SvDeleteOnly | SvRestoreOnly | SvLeak | SvUnknown.
 
+(* ---- call resolution (exprEval.go evalCall) and the native helper table (goFuncs.go GoFuncMap) ---- *)
+(* the places evalCall looks a call name up in, in the order of its statements *)
+Inductive call_step := CallView | CallDot | CallGoFunc | CallUnknown.
+(* the scope a called view's body is evaluated in: a fresh map holding only the parameters / the caller's map *)
+Inductive call_scope_kind := CsFresh | CsShared | CsUnknown.
+(* argument / result types of the helper table: stringType, intType, boolType, listStringType *)
+Inductive gty := GtString | GtInt | GtBool | GtListString | GtUnknown.
+(* the Go function a helper name is bound to *)
+Inductive gimpl :=
+| I_strings_Contains | I_strings_Count | I_strings_Fields | I_FindAllString | I_strings_HasPrefix | I_strings_HasSuffix
+| I_strings_Join | I_strings_LastIndex | I_MatchString | I_strings_Replace | I_strings_Split | I_titleCaser_String
+| I_strings_ToLower | I_strings_ToTitle | I_strings_ToUpper | I_strings_Trim | I_strings_TrimLeft | I_strings_TrimPrefix
+| I_strings_TrimRight | I_strings_TrimSpace | I_strings_TrimSuffix | I_unknown.
+(* reflectToValue on a slice result: does isReflectValueExpectedType look at element 0 without a length test *)
+Inductive slice_guard := SliceIndexUnguarded | SliceLenGuarded | SliceUnknown.
+
 (* ---- decidable equalities used as table keys ---- *)
 Definition vkind_eqb (a b:vkind) : bool :=
   match a, b with
